@@ -3,10 +3,20 @@ Model of `pybtex/bibtex/names.py`: `NameFormatParser` (`parse`, `parse_toplevel`
 `parse_name_part`, `parse_braced_string`, `check_format_chars`), `NamePart.__init__` /
 `NamePart.format`, `join`, `tie_or_space`, `NameFormat.format` = `format_name`.
 (`NamePart.__init__` after the repair: the format letters are lower-cased.)
+
+Character classes: the patterns `NON_LETTERS = [^{}\w]|\d+` and `FORMAT_CHARS = [^\W\d_]+` are
+Unicode-aware; `isWordU` / `isDecU` / `isFmtCh` (`Model/NameFormatChars.lean`) are the running
+interpreter's `\w` / `\d` tables.  `check_format_chars` and `NamePart.__init__` call
+`str.lower()` on the letter run; the model applies the ASCII lower-casing `lower`: the run is
+accepted only if its lower-case form is one of f ff l ll v vv j jj, and no non-ASCII character
+has one of these four letters in its lower-case form (re-checked against the interpreter by
+`harness/tablegen/c11.py` on every run), so the two lower-casings accept the same runs.
+`bibtex_abbreviate` / `bibtex_first_letter` use `str.isalpha` (`bibtexAbbreviateU`).
 -/
-import PybtexModel.Model.Names
+import PybtexModel.Model.NameFormatChars
 
 namespace Pybtex
+open NFChars
 
 inductive FmtErr where
   | unbalanced       -- UnbalancedBraceError
@@ -32,9 +42,6 @@ def takeBraced : Nat → Str → Option (Str × Str)
     else if c = '{' then (takeBraced (d + 1) r).map fun p => (c :: p.1, p.2)
     else (takeBraced d r).map fun p => (c :: p.1, p.2)
 
-/-- `\w` on the ASCII fragment. -/
-def isWordChar (c : Char) : Bool := isAlnum c || c = '_'
-
 /-- `check_format_chars`. -/
 def formatCharsOk (already : Bool) (run : Str) : Bool :=
   let v := lower run
@@ -55,17 +62,17 @@ def namePartLoop : Nat → Str → Str → Option Str → Option Str → Str →
         let v := ['{'] ++ content ++ ['}']
         if fc.isSome then namePartLoop fuel rest pre fc delim (post ++ v)
         else namePartLoop fuel rest (pre ++ v) fc delim post
-    else if c ≠ '}' ∧ !isWordChar c then
+    else if c ≠ '}' ∧ !isWordU c then
       if fc.isSome then namePartLoop fuel r pre fc delim (post ++ [c])
       else namePartLoop fuel r (pre ++ [c]) fc delim post
-    else if isDigit c then
-      let run := (c :: r).takeWhile isDigit
-      let rest := (c :: r).dropWhile isDigit
+    else if isDecU c then
+      let run := (c :: r).takeWhile isDecU
+      let rest := (c :: r).dropWhile isDecU
       if fc.isSome then namePartLoop fuel rest pre fc delim (post ++ run)
       else namePartLoop fuel rest (pre ++ run) fc delim post
-    else if isAlpha c then
-      let run := (c :: r).takeWhile isAlpha
-      let rest := (c :: r).dropWhile isAlpha
+    else if isFmtCh c then
+      let run := (c :: r).takeWhile isFmtCh
+      let rest := (c :: r).dropWhile isFmtCh
       if !formatCharsOk fc.isSome run then .error .illegalLetters
       else
         match rest with
@@ -156,7 +163,7 @@ def formatPart (person : Person) (pre0 : Str) (fc0 : Option Str) (delim : Option
       if !noFc ∧ names = [] then .ok []
       else
         let abbrNames : Option (List Str) :=
-          if abbreviate then names.mapM fun n => bibtexAbbreviate n delim else some names
+          if abbreviate then names.mapM fun n => bibtexAbbreviateU n delim else some names
         match abbrNames with
         | none => .error .tooDeep
         | some ns =>
@@ -201,5 +208,29 @@ def formatName (name fmt : Str) : Except FmtErr (Str × Bool) :=
       match formatParts person parts with
       | .error e => .error e
       | .ok s => .ok (s, rep)
+
+/-! ### the `format.name$` built-in -/
+
+/-- what the built-in leaves on the stack -/
+inductive NthOut where
+  | noSuchName                          -- warning "there is no name number n in …", `''` is pushed
+  | formatted (s : Str) (rep : Bool)    -- the formatted name; `rep` = "too many commas" was reported
+deriving Repr, DecidableEq
+
+/-- `format.name$` of `pybtex/bibtex/builtins.py` on string operands `names n format`
+(`format_name` → `_format_name` → memoised `_format_name_and_reports` / `_split_names`; after
+the repair a name number outside `1..count` gives a warning and the empty string): the name
+list is split at brace-level-0 ` and ` (`split_name_list`), the `n`-th name (counted from 1) is
+formatted with `format_name`.  (Operands of other types: `Model/Interp.lean`, C03.) -/
+def formatNth (names : Str) (n : Int) (fmt : Str) : Except FmtErr NthOut :=
+  let l := splitNameList names
+  if ¬ (1 ≤ n ∧ n ≤ (l.length : Int)) then .ok .noSuchName
+  else
+    match l[(n - 1).toNat]? with       -- `_split_names(names)[n - 1]` with `n ≥ 1`
+    | none => .error .internal          -- IndexError (unreachable)
+    | some name =>
+      match formatName name fmt with
+      | .error e => .error e
+      | .ok (s, rep) => .ok (.formatted s rep)
 
 end Pybtex
